@@ -7,7 +7,7 @@
 From Coq Require Import List NArith ZArith Bool Lia Permutation Btauto.
 From ApiFu Require Import Base.Sexp Fut.Plan Fut.Future Fut.ExecAsync Fut.ExecSync Fut.Denote Fut.SubPerm
      Fut.Live Fut.LiveFacts Fut.Acct Fut.AsyncWrap Fut.AsyncField Fut.AsyncList Fut.AsyncSel Fut.AsyncMain
-     Fut.AsyncRun Fut.AsyncSerial Fut.SyncProofs Fut.FutSpec.
+     Fut.AsyncRun Fut.AsyncSerial Fut.SyncProofs Fut.FutSpec Fut.VisibleProofs Fut.SyncMust.
 Import ListNotations.
 
 (** ** 1. [strip] is invisible to the declarative reading and to the reference *)
@@ -520,9 +520,9 @@ Qed.
 
 (** ** the three repaired defects, kept as witnesses: with one flag of the pinned tree switched
     back on, the faithful model violates the property *)
-Definition flags_drop_err : flags := {| fwd_err := false; after_ptr := true; nn_fwd := true |}.
-Definition flags_after_by_value : flags := {| fwd_err := true; after_ptr := false; nn_fwd := true |}.
-Definition flags_nn_swallows : flags := {| fwd_err := true; after_ptr := true; nn_fwd := false |}.
+Definition flags_drop_err : flags := {| fwd_err := false; after_ptr := true; nn_fwd := true; prefill := fun _ => false |}.
+Definition flags_after_by_value : flags := {| fwd_err := true; after_ptr := false; nn_fwd := true; prefill := fun _ => false |}.
+Definition flags_nn_swallows : flags := {| fwd_err := true; after_ptr := true; nn_fwd := false; prefill := fun _ => false |}.
 
 Definition key_a : bytes := [97%N].
 Definition key_b : bytes := [98%N].
@@ -589,4 +589,178 @@ Proof.
   destruct (run_conforms md sigma (count_async root) (S (resp_depth root)) root Fa (le_n _) (le_n _))
     as (r & E & _ & _ & R).
   exists r. split; auto.
+Qed.
+
+(** ** "the same error for every null left visible" *)
+
+(** what is schedule- and tag-independent without any exclusion: the landing sites, the visible
+    failure-nulls, and that each of them receives exactly one error, admissible there *)
+Theorem error_sites_independent root1 root2 d1 e1 d2 e2 :
+  same_outcomes root1 root2 ->
+  conforms root1 d1 e1 -> conforms root2 d2 e2 ->
+  sites root1 = sites root2 /\ visible_nulls root1 = visible_nulls root2 /\
+  forall x, In x (visible_nulls root1) ->
+    (exists a, In a e1 /\ In a (snd x)) /\ (exists b, In b e2 /\ In b (snd x)).
+Proof.
+  intros Same C1 C2. unfold same_outcomes in Same.
+  assert (Es : sites root1 = sites root2) by (rewrite <- (strip_sites root1), Same; apply strip_sites).
+  assert (Ev : visible_nulls root1 = visible_nulls root2)
+    by (rewrite <- (strip_visible root1), Same; apply strip_visible).
+  split; auto. split; auto. intros x Hx.
+  pose proof (cf_nulls _ _ _ C1) as N1. pose proof (cf_nulls _ _ _ C2) as N2. rewrite <- Ev in N2.
+  rewrite Forall_forall in N1, N2. split; [apply (N1 x Hx) | apply (N2 x Hx)].
+Qed.
+
+Lemma single_candidate_at root x :
+  single_candidate root = true -> In x (visible_nulls root) -> exists e, snd x = [e].
+Proof.
+  unfold single_candidate. rewrite forallb_forall. intros H Hx. specialize (H x Hx).
+  destruct (snd x) as [|e [|? ?]]; try discriminate. now exists e.
+Qed.
+
+(** with the exclusion: any two runs report the same error for every visible failure-null *)
+Theorem same_error_when_single_candidate md root1 root2 sigma1 sigma2 fuel1 fuel2 jfuel :
+  excl_admissible_error_differs root1 = false ->
+  same_outcomes root1 root2 ->
+  fair sigma1 -> fair sigma2 ->
+  count_async root1 <= fuel1 -> count_async root2 <= fuel2 -> resp_depth root1 < jfuel ->
+  exists r1 r2,
+    run FX sigma1 md fuel1 jfuel root1 = Done r1 /\
+    run FX sigma2 md fuel2 jfuel root2 = Done r2 /\
+    r_data r1 = r_data r2 /\
+    forall x, In x (visible_nulls root1) ->
+      exists e, snd x = [e] /\ In e (r_errors r1) /\ In e (r_errors r2) /\
+                (forall e', lands e' x -> e' = e).
+Proof.
+  intros Ex Same F1 F2 H1 H2 Hj.
+  destruct (schedule_independent md root1 root2 sigma1 sigma2 fuel1 fuel2 jfuel Same F1 F2 H1 H2 Hj)
+    as (r1 & r2 & E1 & E2 & D & C1 & C2).
+  exists r1, r2. split; auto. split; auto. split; auto.
+  intros x Hx. unfold excl_admissible_error_differs in Ex. apply negb_false_iff in Ex.
+  destruct (single_candidate_at root1 x Ex Hx) as [e Se]. exists e. split; auto.
+  pose proof (cf_nulls _ _ _ C1) as N1. pose proof (cf_nulls _ _ _ C2) as N2.
+  rewrite Forall_forall in N1, N2.
+  destruct (N1 x Hx) as (a & Ia & La). destruct (N2 x Hx) as (b & Ib & Lb).
+  unfold lands in *. rewrite Se in La, Lb. destruct La as [<-|[]]. destruct Lb as [<-|[]].
+  split; auto. split; auto. intros e' L. rewrite Se in L. destruct L as [<-|[]]. reflexivity.
+Qed.
+
+(** without it the literal statement is false of the faithful model (and of the code: the oracle
+    key admissible-error-differs): {a b}, a: Int! a failing promise, b: Int! failing directly — the
+    synchronous execution reports a's error, the asynchronous one b's, without an idle round *)
+Definition w_two_fail : selset := [(key_a, FP (Some 0%N) true None); (key_b, FP None true None)].
+
+Theorem same_error_refuted :
+  exists root1 root2 sigma r1 r2,
+    wf root1 = true /\ same_outcomes root1 root2 /\ fair sigma /\
+    run FX sigma Query (count_async root1) (S (resp_depth root1)) root1 = Done r1 /\
+    run FX sigma Query (count_async root2) (S (resp_depth root1)) root2 = Done r2 /\
+    r_data r1 = r_data r2 /\
+    exists x e1 e2, In x (visible_nulls root1) /\
+      r_errors r1 = [e1] /\ r_errors r2 = [e2] /\ lands e1 x /\ lands e2 x /\ e1 <> e2.
+Proof.
+  exists w_two_fail, (strip w_two_fail), (sigma_ranks [0]),
+    {| r_data := None; r_errors := [mkerr [PKey key_b] KResolve]; r_rounds := 0;
+       r_events := [EStart [PKey key_a]; EStart [PKey key_b]]; r_promises := 1 |},
+    {| r_data := None; r_errors := [mkerr [PKey key_a] KResolve]; r_rounds := 0;
+       r_events := [EStart [PKey key_a]]; r_promises := 0 |}.
+  split; [reflexivity|]. split; [reflexivity|]. split; [apply sigma_ranks_fair|].
+  split; [vm_compute; reflexivity|]. split; [vm_compute; reflexivity|]. split; [reflexivity|].
+  exists ([], [mkerr [PKey key_a] KResolve; mkerr [PKey key_b] KResolve]),
+    (mkerr [PKey key_b] KResolve), (mkerr [PKey key_a] KResolve).
+  split; [vm_compute; now left|]. split; [reflexivity|]. split; [reflexivity|].
+  split; [right; now left|]. split; [now left|]. discriminate.
+Qed.
+
+(** the same with one request and two schedules: { a { x y } }, x: Int!, y: Int! failing promises *)
+Definition w_xy : selset :=
+  [ (key_a, FP None false (Some (VObj [ ([120%N], FP (Some 0%N) true None); ([121%N], FP (Some 1%N) true None) ]))) ].
+
+Theorem same_error_refuted_by_schedule :
+  exists root sigma1 sigma2 r1 r2,
+    wf root = true /\ fair sigma1 /\ fair sigma2 /\
+    run FX sigma1 Query (count_async root) (S (resp_depth root)) root = Done r1 /\
+    run FX sigma2 Query (count_async root) (S (resp_depth root)) root = Done r2 /\
+    r_data r1 = r_data r2 /\
+    exists x e1 e2, In x (visible_nulls root) /\
+      r_errors r1 = [e1] /\ r_errors r2 = [e2] /\ lands e1 x /\ lands e2 x /\ e1 <> e2.
+Proof.
+  exists w_xy, (sigma_ranks [0; 1]), (sigma_ranks [1; 0]),
+    {| r_data := Some (JObj [(key_a, JNull)]); r_errors := [mkerr [PKey key_a; PKey [120%N]] KResolve];
+       r_rounds := 1;
+       r_events := [EStart [PKey key_a]; EStart [PKey key_a; PKey [120%N]]; EStart [PKey key_a; PKey [121%N]];
+                    EFulfil [PKey key_a; PKey [120%N]]];
+       r_promises := 2 |},
+    {| r_data := Some (JObj [(key_a, JNull)]); r_errors := [mkerr [PKey key_a; PKey [121%N]] KResolve];
+       r_rounds := 1;
+       r_events := [EStart [PKey key_a]; EStart [PKey key_a; PKey [120%N]]; EStart [PKey key_a; PKey [121%N]];
+                    EFulfil [PKey key_a; PKey [121%N]]];
+       r_promises := 2 |}.
+  split; [reflexivity|]. split; [apply sigma_ranks_fair|]. split; [apply sigma_ranks_fair|].
+  split; [vm_compute; reflexivity|]. split; [vm_compute; reflexivity|]. split; [reflexivity|].
+  exists ([PKey key_a], [mkerr [PKey key_a; PKey [120%N]] KResolve; mkerr [PKey key_a; PKey [121%N]] KResolve]),
+    (mkerr [PKey key_a; PKey [120%N]] KResolve), (mkerr [PKey key_a; PKey [121%N]] KResolve).
+  split; [vm_compute; now left|]. split; [reflexivity|]. split; [reflexivity|].
+  split; [now left|]. split; [right; now left|]. discriminate.
+Qed.
+
+(** ** [conforms], with the visible failure-nulls read off the data as the oracle does *)
+Theorem conforms_by_reading root d errs : wf root = true ->
+  (conforms root d errs <->
+   d = sr_data (run_sync root) /\
+   (exists ls, Forall2 lands errs ls /\ sub_perm ls (sites root)) /\
+   forall x, In x (sites root) -> visible_failure_null d x = true -> exists e, In e errs /\ lands e x).
+Proof.
+  intros W. split.
+  - intros [D L N]. split; auto. split; auto. intros x Hx V.
+    rewrite D, sync_data in V. apply (visible_nulls_agree root W x Hx) in V.
+    rewrite Forall_forall in N. now apply N.
+  - intros (D & L & N). constructor; auto. apply Forall_forall. intros x Hx.
+    apply N; [now apply visible_nulls_are_sites|].
+    rewrite D, sync_data. apply (visible_nulls_agree root W x); auto. now apply visible_nulls_are_sites.
+Qed.
+
+(** ** the idle-handler contract (graphql.go: "any time request execution is unable to proceed, the
+    idle handler will be invoked"): in the model an idle call that finds no outstanding promise
+    ends the run as [Stuck], whatever the handler is; a ready future is returned by [wait] without
+    any idle call; and no run under a fair handler is [Stuck] — so the executor calls the idle
+    handler only while a promise is outstanding, and never after completion. *)
+Lemma idle_needs_outstanding sigma s : outstanding s = [] -> idle sigma s = None.
+Proof.
+  unfold outstanding, idle. intros O. apply map_eq_nil in O.
+  assert (H : filter (fun p => negb (p_done p) && mem_nat (p_id p) (sigma (s_round s) [])) (s_proms s) = []).
+  { induction (s_proms s) as [|p l IH]; [reflexivity|]. simpl in *.
+    destruct (negb (p_done p)); [discriminate|]. simpl. now apply IH. }
+  unfold outstanding. rewrite O. simpl. now rewrite H.
+Qed.
+
+Lemma wait_ready_no_idle fl sigma fuel r s : wait fl sigma fuel (Ready r) s = Done (r, s).
+Proof. reflexivity. Qed.
+
+Theorem run_never_stuck md sigma fuel jfuel root :
+  fair sigma -> count_async root <= fuel -> resp_depth root < jfuel ->
+  run FX sigma md fuel jfuel root <> Stuck /\ run FX sigma md fuel jfuel root <> OutOfFuel.
+Proof.
+  intros Fa Hf Hj. destruct (run_conforms md sigma fuel jfuel root Fa Hf Hj) as (r & E & _).
+  rewrite E. split; discriminate.
+Qed.
+
+(** ** against the reference itself: under the exclusion, every run reports for every visible
+    failure-null exactly the error the synchronous reference reports for it *)
+Theorem same_error_as_reference md sigma fuel jfuel root :
+  excl_admissible_error_differs root = false ->
+  fair sigma -> count_async root <= fuel -> resp_depth root < jfuel ->
+  exists r, run FX sigma md fuel jfuel root = Done r /\
+    r_data r = sr_data (run_sync root) /\
+    forall x, In x (visible_nulls root) ->
+      exists e, snd x = [e] /\ In e (r_errors r) /\ In e (sr_errors (run_sync root)).
+Proof.
+  intros Ex Fa Hf Hj. destruct (run_conforms md sigma fuel jfuel root Fa Hf Hj) as (r & E & C & _).
+  exists r. split; auto. split; [apply (cf_data _ _ _ C)|]. intros x Hx.
+  unfold excl_admissible_error_differs in Ex. apply negb_false_iff in Ex.
+  destruct (single_candidate_at root x Ex Hx) as [e Se]. exists e. split; auto.
+  pose proof (cf_nulls _ _ _ C) as N1. pose proof (cf_nulls _ _ _ (run_sync_conforms root)) as N2.
+  rewrite Forall_forall in N1, N2.
+  destruct (N1 x Hx) as (a & Ia & La). destruct (N2 x Hx) as (b & Ib & Lb).
+  unfold lands in *. rewrite Se in La, Lb. destruct La as [<-|[]]. destruct Lb as [<-|[]]. auto.
 Qed.
